@@ -809,7 +809,8 @@ def donor_for(g: L.G, P: Any, p: S.Prop, misfit: bool = False) -> dict:
         # a fresh node that equals the child already in the slot (models compare by type and text): the slot must hold the new node afterwards
         try:
             cur = getattr(P, p.name, None)
-            if isinstance(cur, base.RawModel) and O.print_text(cur):
+            # (no line breaks inside a donor, as in D.make: an earlier spacing operation may have put one into the current child)
+            if isinstance(cur, base.RawModel) and O.print_text(cur) and '\n' not in O.print_text(cur):
                 return {'k': kind, 't': O.print_text(cur)}
         except Exception:  # noqa: BLE001
             pass
